@@ -183,9 +183,31 @@ fn h_mb_tables<S: Src>(s: &mut S) {
     s.reach();
 }
 
+include!("/verif/hooks/h263/parser/macroblock_assembly.rs");
+
 #[cfg(kani)]
 mod proofs {
     use super::*;
+    #[kani::proof]
+    #[kani::unwind(14)]
+    #[kani::stub(H263Reader::read_bits, H263Reader::verif_mb_read_bits)]
+    #[kani::stub(H263Reader::read_vlc, H263Reader::verif_mb_read_vlc)]
+    #[kani::stub(decode_dquant, mbasm::s_dquant)]
+    #[kani::stub(decode_motion_vector, mbasm::s_mv)]
+    #[kani::stub(decode_cbpb, mbasm::s_cbpb)]
+    fn mb_assembly() {
+        mbasm::mb_assembly::<false>()
+    }
+    #[kani::proof]
+    #[kani::unwind(14)]
+    #[kani::stub(H263Reader::read_bits, H263Reader::verif_mb_read_bits)]
+    #[kani::stub(H263Reader::read_vlc, H263Reader::verif_mb_read_vlc)]
+    #[kani::stub(decode_dquant, mbasm::s_dquant)]
+    #[kani::stub(decode_motion_vector, mbasm::s_mv)]
+    #[kani::stub(decode_cbpb, mbasm::s_cbpb)]
+    fn mb_assembly_err() {
+        mbasm::mb_assembly::<true>()
+    }
     #[kani::proof]
     #[kani::unwind(140)]
     fn mvd_table() {
